@@ -7,49 +7,84 @@ package regexp2
 
 import (
 	"sync"
+	"sync/atomic"
 
 	"github.com/dlclark/regexp2/v2/syntax"
 )
 
+// The callbacks are kept in atomic pointers so that a harness may install and remove them
+// while goroutines of the package (the timeout clock) are running.
 var (
-	// VerifOnStep is called before every opcode dispatch of the interpreter.
-	VerifOnStep func(r *Runner)
-	// VerifOnScanStart is called after initMatch, before the first candidate search of a scan.
-	VerifOnScanStart func(r *Runner)
-	// VerifOnFind is called after every candidate search: scan position before and after, result.
-	VerifOnFind func(r *Runner, from, to int, found bool)
-	// VerifOnGrow is called when the backtracking stack is asked to grow.
-	VerifOnGrow func(r *Runner, oldCap, newCap int)
-	// VerifOnPoint is called at the shared-state linearization points
-	// (getRunner, putRunner, bufGet, bufPut, cacheGet, cacheAdd, clock*). It may block:
-	// a harness uses it as a scheduler gate.
-	VerifOnPoint func(point string, obj any, a, b int)
+	verifOnStep      atomic.Pointer[func(r *Runner)]
+	verifOnScanStart atomic.Pointer[func(r *Runner)]
+	verifOnFind      atomic.Pointer[func(r *Runner, from, to int, found bool)]
+	verifOnGrow      atomic.Pointer[func(r *Runner, oldCap, newCap int)]
+	verifOnPoint     atomic.Pointer[func(point string, obj any, a, b int)]
 
 	verifNaiveMu  sync.RWMutex
 	verifNaiveSet = map[*Regexp]bool{}
 )
 
+// SetVerifOnStep installs (nil removes) the callback called before every opcode dispatch.
+func SetVerifOnStep(f func(r *Runner)) { storeHook(&verifOnStep, f) }
+
+// SetVerifOnScanStart: called after initMatch, before the first candidate search of a scan.
+func SetVerifOnScanStart(f func(r *Runner)) { storeHook(&verifOnScanStart, f) }
+
+// SetVerifOnFind: called after every candidate search: scan position before and after, result.
+func SetVerifOnFind(f func(r *Runner, from, to int, found bool)) { storeHook(&verifOnFind, f) }
+
+// SetVerifOnGrow: called when the backtracking stack is asked to grow.
+func SetVerifOnGrow(f func(r *Runner, oldCap, newCap int)) { storeHook(&verifOnGrow, f) }
+
+// SetVerifOnPoint: called at the shared-state linearization points (getRunner, putRunner,
+// bufGet, bufPut, cacheGet, cacheAdd, clock*, deadline*). The callback may block: a harness
+// uses it as a scheduler gate.
+func SetVerifOnPoint(f func(point string, obj any, a, b int)) { storeHook(&verifOnPoint, f) }
+
+func storeHook[T any](p *atomic.Pointer[T], f T) {
+	if any(f) == nil || isNilFunc(f) {
+		p.Store(nil)
+		return
+	}
+	p.Store(&f)
+}
+
+func isNilFunc[T any](f T) bool {
+	switch v := any(f).(type) {
+	case func(r *Runner):
+		return v == nil
+	case func(r *Runner, from, to int, found bool):
+		return v == nil
+	case func(r *Runner, oldCap, newCap int):
+		return v == nil
+	case func(point string, obj any, a, b int):
+		return v == nil
+	}
+	return false
+}
+
 func verifStep(r *Runner) {
-	if VerifOnStep != nil {
-		VerifOnStep(r)
+	if f := verifOnStep.Load(); f != nil {
+		(*f)(r)
 	}
 }
 
 func verifScanStart(r *Runner) {
-	if VerifOnScanStart != nil {
-		VerifOnScanStart(r)
+	if f := verifOnScanStart.Load(); f != nil {
+		(*f)(r)
 	}
 }
 
 func verifGrow(r *Runner, oldCap, newCap int) {
-	if VerifOnGrow != nil {
-		VerifOnGrow(r, oldCap, newCap)
+	if f := verifOnGrow.Load(); f != nil {
+		(*f)(r, oldCap, newCap)
 	}
 }
 
 func verifPoint(point string, obj any, a, b int) {
-	if VerifOnPoint != nil {
-		VerifOnPoint(point, obj, a, b)
+	if f := verifOnPoint.Load(); f != nil {
+		(*f)(point, obj, a, b)
 	}
 }
 
@@ -65,13 +100,14 @@ func verifWrapFind(r *Runner, f func(r *Runner) bool) func(r *Runner) bool {
 		// all acceleration disabled: every position in scan order is a candidate
 		return func(r *Runner) bool { return true }
 	}
-	if VerifOnFind == nil {
+	hook := verifOnFind.Load()
+	if hook == nil {
 		return f
 	}
 	return func(r *Runner) bool {
 		from := r.Runtextpos
 		found := f(r)
-		VerifOnFind(r, from, r.Runtextpos, found)
+		(*hook)(r, from, r.Runtextpos, found)
 		return found
 	}
 }
